@@ -41,6 +41,9 @@ type VirtualMachine struct {
 	os           os.OS
 	modules      map[string]*object.Module
 	inputGlobals map[string]any
+	// importing holds the names of the modules whose code is running because
+	// of an import statement that has not finished yet
+	importing map[string]bool
 	// globalsGiven is set while a set of options is applied, once one of
 	// them has supplied globals
 	globalsGiven bool
@@ -1176,10 +1179,20 @@ func (vm *VirtualMachine) importModule(ctx context.Context, name string) (*objec
 	if vm.importer == nil {
 		return nil, &moduleUnavailableError{err: fmt.Errorf("imports are disabled")}
 	}
+	// A module that is imported again while its own code is still running
+	// (two modules that import each other) would run again, and again
+	if vm.importing[name] {
+		return nil, fmt.Errorf("import error: import cycle through module %q", name)
+	}
 	module, err := vm.importer.Import(ctx, name)
 	if err != nil {
 		return nil, &moduleUnavailableError{err: err}
 	}
+	if vm.importing == nil {
+		vm.importing = map[string]bool{}
+	}
+	vm.importing[name] = true
+	defer delete(vm.importing, name)
 	// Activate a new frame to evaluate the module code
 	baseFP := vm.fp
 	baseIP := vm.ip
